@@ -59,5 +59,6 @@ def main (args : List String) : IO UInt32 := do
   | ["l3c"] => loopGen stdin stdout Ocpp.Drv.stepL3C {}; pure 0
   | ["cdmon"] => loopGen stdin stdout Ocpp.Drv.stepCMon (some {}); pure 0
   | ["sdmon"] => loopGen stdin stdout Ocpp.Drv.stepSMon (some {}); pure 0
+  | ["c03"] => loopPure stdin stdout Ocpp.Drv.stepC03; pure 0
   | ["datetime"] => loopPure stdin stdout Ocpp.Drv.stepDateTime; pure 0
   | _ => IO.eprintln "usage: driver <suite>"; pure 2
